@@ -6,6 +6,7 @@
   `Real.sqrt` (`vg.normalize`, `vg.magnitude`).
 -/
 import PW.Model.Line
+import PW.Gen.LineFn
 import PW.Lemmas.Vec
 import PW.Lemmas.Line
 import Mathlib.Tactic.Ring
@@ -748,5 +749,123 @@ example : MeetExactlyAt2 (K := ℚ) ⟨0, 0⟩ ⟨1, 0⟩ ⟨0, -1⟩ ⟨0, 1⟩
   ext
   · simp only; rw [ht1]; norm_num
   · simp only; rw [hs2]; norm_num
+
+/-! ## what the model takes from the source
+
+`harness/translate/c18.py` reads the shortcut comparisons, the degeneracy tests, the sign rule, the determinant test and
+the formulas of `intersect_lines`, `intersect_2d_lines` (`polliwog/line/_line_intersect.py`), `project_point_to_line`
+(`polliwog/line/_line_functions.py`) and of `Line` (`polliwog/line/_line_object.py`) out of the source text into
+`PW/Gen/LineFn.lean` on every run (local names replaced by what they were assigned; E = p0 - q0, F = p1 - q1,
+G = p0 - p1, H = np.cross(F, G), K = np.cross(F, E), A, B are structural labels).  The theorems below state that each
+generated value is the one the hand-written model `PW/Model/Line.lean` was written from — and, where the literal is a
+Lean literal of the model, that the model computes with exactly the generated value — so that an edit of one of them in
+the source breaks a proof obligation here. -/
+
+/-- the two shortcuts of `intersect_lines`: `p0` when `p0 == p1` or `p0 == q1`; `q0` when `q0 == p1` or (sic)
+    `p0 == q1` — the pairs the model's `intersectLines` tests with `v3beq`, in this order. -/
+theorem gen_shortcuts :
+    PW.Gen.LineFn.shortcutP0Pairs = ["p0 p1", "p0 q1"] ∧ PW.Gen.LineFn.shortcutP0Ops = [.eq, .eq] ∧
+    PW.Gen.LineFn.shortcutP0Result = "p0" ∧
+    PW.Gen.LineFn.shortcutQ0Pairs = ["p0 q1", "p1 q0"] ∧ PW.Gen.LineFn.shortcutQ0Ops = [.eq, .eq] ∧
+    PW.Gen.LineFn.shortcutQ0Result = "q0" := by decide
+
+/-- the auxiliary vectors of `intersect_lines`: `e = p0 - q0`, `f = p1 - q1`, `g = p0 - p1`, `h = cross(f, g)`,
+    `k = cross(f, e)`, and the general result `p0 + sign * (|h| / |k| * e)` (operands in the translator's normal order). -/
+theorem gen_intersect_vectors :
+    PW.Gen.LineFn.eSrc = "p0 - q0" ∧ PW.Gen.LineFn.fSrc = "p1 - q1" ∧ PW.Gen.LineFn.gSrc = "p0 - p1" ∧
+    PW.Gen.LineFn.hSrc = "np.cross(F, G)" ∧ PW.Gen.LineFn.kSrc = "np.cross(F, E)" ∧ PW.Gen.LineFn.sameF = true ∧
+    PW.Gen.LineFn.resultSrc =
+      "(-1 if np.dot(H, K) > 0 else 1) * E * (vg.magnitude(H) / vg.magnitude(K)) + p0" :=
+  ⟨rfl, rfl, rfl, rfl, rfl, by decide, rfl⟩
+
+section GenTies
+variable {R : Type} [Field R] [LinearOrder R] [IsStrictOrderedRing R] [Sqrt R]
+
+/-- the tests after the shortcuts — `k_ == 0` (None), `h_ == 0` (p0), `np.dot(g, k) != 0` (None) — and the sign rule
+    `-1 if np.dot(h, k) > 0 else +1`: the model's `intersectLines` tests exactly the generated comparisons against the
+    generated bounds and multiplies by the generated signs. -/
+theorem gen_intersect_lines :
+    (PW.Gen.LineFn.kZeroCmp = .eq ∧ PW.Gen.LineFn.kZeroLhs = "vg.magnitude(K)" ∧ PW.Gen.LineFn.kZeroRhs = 0 ∧
+      PW.Gen.LineFn.kZeroResult = "None") ∧
+    (PW.Gen.LineFn.hZeroCmp = .eq ∧ PW.Gen.LineFn.hZeroLhs = "vg.magnitude(H)" ∧ PW.Gen.LineFn.hZeroRhs = 0 ∧
+      PW.Gen.LineFn.hZeroResult = "p0") ∧
+    (PW.Gen.LineFn.skewCmp = .ne ∧ PW.Gen.LineFn.skewLhs = "np.dot(G, K)" ∧ PW.Gen.LineFn.skewRhs = 0 ∧
+      PW.Gen.LineFn.skewResult = "None") ∧
+    (PW.Gen.LineFn.signCmp = .gt ∧ PW.Gen.LineFn.signLhs = "np.dot(H, K)" ∧ PW.Gen.LineFn.signRhs = 0 ∧
+      PW.Gen.LineFn.signThen = -1 ∧ PW.Gen.LineFn.signElse = 1) ∧
+    ∀ (p0 q0 p1 q1 : V3 R), intersectLines p0 q0 p1 q1 =
+      (let e := p0 - q0
+       let f := p1 - q1
+       if v3beq p0 p1 || v3beq p0 q1 then some p0
+       else if v3beq q0 p1 || v3beq p0 q1 then some q0
+       else
+         let g := p0 - p1
+         let h := f.cross g
+         let k := f.cross e
+         if PW.Gen.LineFn.kZeroCmp.test k.norm ((PW.Gen.LineFn.kZeroRhs : Int) : R) then none
+         else if PW.Gen.LineFn.hZeroCmp.test h.norm ((PW.Gen.LineFn.hZeroRhs : Int) : R) then some p0
+         else if PW.Gen.LineFn.skewCmp.test (g.dot k) ((PW.Gen.LineFn.skewRhs : Int) : R) then none
+         else
+           let sign : R :=
+             if PW.Gen.LineFn.signCmp.test (h.dot k) ((PW.Gen.LineFn.signRhs : Int) : R)
+             then ((PW.Gen.LineFn.signThen : Int) : R) else ((PW.Gen.LineFn.signElse : Int) : R)
+           some (p0 + V3.smul sign (V3.smul (h.norm / k.norm) e))) := by
+  refine ⟨⟨by decide, rfl, by decide, rfl⟩, ⟨by decide, rfl, by decide, rfl⟩, ⟨by decide, rfl, by decide, rfl⟩,
+    ⟨by decide, rfl, by decide, by decide, by decide⟩, ?_⟩
+  intro p0 q0 p1 q1
+  unfold intersectLines
+  simp [PW.Gen.Cmp.test, PW.Gen.LineFn.kZeroCmp, PW.Gen.LineFn.kZeroRhs, PW.Gen.LineFn.hZeroCmp,
+    PW.Gen.LineFn.hZeroRhs, PW.Gen.LineFn.skewCmp, PW.Gen.LineFn.skewRhs, PW.Gen.LineFn.signCmp,
+    PW.Gen.LineFn.signRhs, PW.Gen.LineFn.signThen, PW.Gen.LineFn.signElse]
+
+end GenTies
+
+/-- `intersect_2d_lines`: the system `a x = b` (rows `[-dy, dx]`, right-hand sides `p[1] * dx - dy * p[0]`), `None` when
+    `a[0][0] * a[1][1] - a[0][1] * a[1][0] == 0`, else `np.linalg.solve(a, b)` (`None` if that raises): the model's
+    `intersect2dWith` tests exactly the generated comparison on `M2.det`. -/
+theorem gen_intersect_2d :
+    (PW.Gen.LineFn.detCmp = .eq ∧ PW.Gen.LineFn.detSrc = "A[0][0] * A[1][1] - A[0][1] * A[1][0]" ∧
+      PW.Gen.LineFn.detRhs = 0 ∧ PW.Gen.LineFn.detResult = "None" ∧ PW.Gen.LineFn.solveSrc = "np.linalg.solve(A, B)" ∧
+      PW.Gen.LineFn.solveFailureResult = "None") ∧
+    PW.Gen.LineFn.matrixSrc =
+      "np.array([[p0[1] - q0[1], -p0[0] + q0[0]], [p1[1] - q1[1], -p1[0] + q1[0]]])" ∧
+    PW.Gen.LineFn.rhsSrc =
+      "np.array([(-p0[0] + q0[0]) * p0[1] - (-p0[1] + q0[1]) * p0[0], (-p1[0] + q1[0]) * p1[1] - (-p1[1] + q1[1]) * p1[0]])" ∧
+    (∀ (solve : M2 K → V2 K → Option (V2 K)) (p0 q0 p1 q1 : V2 K), intersect2dWith solve p0 q0 p1 q1 =
+      if PW.Gen.LineFn.detCmp.test (system2d p0 q0 p1 q1).1.det ((PW.Gen.LineFn.detRhs : Int) : K) then none
+      else solve (system2d p0 q0 p1 q1).1 (system2d p0 q0 p1 q1).2) ∧
+    ∀ (p0 q0 p1 q1 : V2 K), (system2d p0 q0 p1 q1).1 =
+        ⟨p0.y - q0.y, -p0.x + q0.x, p1.y - q1.y, -p1.x + q1.x⟩ ∧
+      (system2d p0 q0 p1 q1).2 =
+        ⟨(-p0.x + q0.x) * p0.y - (-p0.y + q0.y) * p0.x, (-p1.x + q1.x) * p1.y - (-p1.y + q1.y) * p1.x⟩ := by
+  refine ⟨⟨by decide, rfl, by decide, rfl, rfl, rfl⟩, rfl, rfl, ?_, ?_⟩
+  · intro solve p0 q0 p1 q1
+    simp [intersect2dWith, PW.Gen.Cmp.test, PW.Gen.LineFn.detCmp, PW.Gen.LineFn.detRhs]
+  · intro p0 q0 p1 q1
+    constructor
+    · simp only [system2d]
+      congr 1 <;> ring
+    · simp only [system2d]
+      congr 1 <;> ring
+
+/-- `Line(point, along)` refuses `vg.almost_zero(along)` with `ValueError` and stores its arguments unchanged;
+    `from_points`, `reference_points`, `intersect_line`, `project` and `project_point_to_line` are the expressions the
+    model's `Line.mk?`, `fromPoints`, `referencePoints`, `intersectLine`, `project`, `projectPointToLine` were written
+    from. -/
+theorem gen_line_object :
+    (PW.Gen.LineFn.ctorRefusesWhen = "vg.almost_zero(along)" ∧ PW.Gen.LineFn.ctorRaises = "ValueError" ∧
+      PW.Gen.LineFn.ctorStores =
+        ["self.reference_point = point", "self.along = along", "self.assume_normalized = assume_normalized"]) ∧
+    PW.Gen.LineFn.fromPointsSrc = "cls(along=-p1 + p2, point=p1)" ∧
+    PW.Gen.LineFn.referencePointsSrc = "(self.reference_point, self.along + self.reference_point)" ∧
+    PW.Gen.LineFn.intersectLineSrc = "intersect_lines(*self.reference_points + other.reference_points)" ∧
+    PW.Gen.LineFn.projectMethodSrc =
+      "project_point_to_line(points=points, reference_points_of_lines=self.reference_point, vectors_along_lines=self.along)" ∧
+    PW.Gen.LineFn.projectSrc =
+      "reference_points_of_lines + vg.project(points - reference_points_of_lines, onto=vectors_along_lines)" ∧
+    (∀ (atol : K) (point along : V3 K), Line.mk? atol point along =
+      if almostZero atol along then .error .ValueError else .ok ⟨point, along⟩) ∧
+    (∀ l : Line K, l.referencePoints = (l.ref, l.ref + l.along)) :=
+  ⟨⟨rfl, rfl, by decide⟩, rfl, rfl, rfl, rfl, rfl, fun _ _ _ => rfl, fun _ => rfl⟩
 
 end PW.C18
